@@ -17,6 +17,11 @@ Each model states what the *library* does, nothing about quantem:
   scipy.interpolate.interp1d(x, y, kind)(t): kind of degree d reproduces polynomials of degree <= d; on exactly d+1 nodes it is
         the interpolating polynomial; without fill_value="extrapolate" a query outside [x0, x_last] raises ValueError.
 
+  np.mean(a, axis=k): arithmetic mean along an axis; np.median / min / max / quantile / mean(a): some real number
+  np.fft.fft2(a): an OPAQUE array (contents outside the model; arithmetic on it stays opaque)
+  a[i] = v / a[i, :] = v: functional update of one leading slab, the right-hand side read in the pre-write state;
+        per-slab ghost totals are remembered for concrete i
+
 Totals are carried as ghost `FormalSum`s (a real constant plus formal sums SUM_{j<n} body(j)); the only algebra applied
 to them is  SUM f + SUM g = SUM (f+g)  over equal ranges and  SUM_{j<n} c = n*c  (textbook identities, part of the trusted base).
 The ghost is stamped with the array's write counter: any write not understood here invalidates it.
